@@ -1,6 +1,7 @@
 import Driver.C14
 import Driver.Conn
 import Driver.Viso
+import Driver.Tools
 /-! `vmodel`: the line-protocol driver over the executable Lean model.
     One case per input line (`<stream> <args…>`), one predicted observation per output line. -/
 namespace Driver
@@ -15,6 +16,8 @@ def dispatch (line : String) : String :=
     | "raw" => rawWith fullWrap args
     | "clean" => cleanOp args
     | "viso" => visoOp args
+    | "mkiso" => mkisoOp args
+    | "dec" => decOp args
     | "real" => realOp args
     | _ => "bad-op"
 
